@@ -104,10 +104,14 @@ def stubbed_download(tier):
                 finally:
                     shutil.rmtree(d, ignore_errors=True)
         # LicenseRef-: never the network
-        for source in (None, "file", "dir", "dir-missing"):
+        for source, existing in [(s_, False) for s_ in (None, "file", "dir", "dir-missing")] + [(s_, True) for s_ in (None, "file", "dir")]:
             d = tempfile.mkdtemp(dir=os.path.join(VERIF, ".scratch"))
             try:
                 calls = []
+                if existing:      # the target is already there: it must be kept as it is, and the command must say so
+                    os.makedirs(os.path.join(d, "LICENSES"))
+                    with open(os.path.join(d, "LICENSES", "LicenseRef-mine.txt"), "w") as fp:
+                        fp.write("OLD TEXT")
 
                 def fake2(identifier, _calls=calls):
                     _calls.append(identifier)
@@ -131,10 +135,15 @@ def stubbed_download(tier):
                     os.chdir(cwd)
                 runs += 1
                 target = os.path.join(d, "LICENSES", "LicenseRef-mine.txt")
-                case = {"licenseref_source": source, "exit": r.exit_code}
+                case = {"licenseref_source": source, "target_exists": existing, "exit": r.exit_code, "replayed": True}
                 if calls:
                     failures.append(dict(case, problem="network used for a LicenseRef- identifier"))
-                if source == "dir-missing":
+                if existing:
+                    if open(target).read() != "OLD TEXT":
+                        failures.append(dict(case, problem="an existing LicenseRef- licence file was overwritten"))
+                    elif r.exit_code == 0:
+                        failures.append(dict(case, problem="existing target but exit status 0"))
+                elif source == "dir-missing":
                     if r.exit_code == 0 or os.path.exists(target):
                         failures.append(dict(case, problem="missing source not reported / file left behind"))
                 elif r.exit_code != 0 or not os.path.exists(target):
